@@ -16,7 +16,14 @@ class Tracer:
         self.obj_ids = {}
 
     def tid(self):
-        return threading.current_thread().tnum
+        # a thread the harness did not start (one spawned by the implementation itself) gets an id of its own: whatever it does under the
+        # lock happens outside every client command, which the lockset discipline rejects (`acq-outside-command`)
+        th = threading.current_thread()
+        t = getattr(th, 'tnum', None)
+        if t is None:
+            self.foreign = getattr(self, 'foreign', 0) + 1
+            t = th.tnum = 900 + self.foreign
+        return t
 
     def oid(self, o):
         return self.obj_ids.setdefault(id(o), len(self.obj_ids))
@@ -250,6 +257,13 @@ def run_trial(seed, nthreads, ncmds, version=7, switch=1e-6):
     threading.current_thread().tnum = 0
     [th.start() for th in ths]
     [th.join(timeout=60) for th in ths]
+    stuck = [th.tnum for th in ths if th.is_alive()]
+    if stuck:
+        errors.append('threads %r did not finish within 60 s (dead-lock: the server lock is held or waited for for ever)' % stuck)
+    # threads started by the implementation itself finish their work before the trace is judged
+    for th in threading.enumerate():
+        if getattr(th, 'tnum', 0) >= 900:
+            th.join(timeout=5)
     sys.setswitchinterval(old)
     return tr.ev, cmds, errors, srv
 
